@@ -729,8 +729,16 @@ def _short(o):
 
 
 def total_judges(B, g, results):
-    """finiteness is demanded of well-formed waveforms only (the model decides well-formedness); second batch"""
+    """second batch: finiteness is demanded of well-formed waveforms only (the model decides well-formedness);
+    the pointwise semantics `QP.C08.Wf.sample` is the oracle for the value at a time (DESIGN 4, table row C08)"""
     for res in results:
+        impl, model = res['impl'], res['model']
+        if model is not None and 'error' not in impl and 'error' not in model and model.get('wf') \
+                and impl['chans'] == model['chans'] and impl['samples'] != model['samples']:
+            judge(B, g, 'judge-same', [vals_sx(flat(impl['samples'], impl['chans'])),
+                                       vals_sx(flat(model['samples'], model['chans']))],
+                  'pointwise: unsafe_sample differs from the pointwise semantics of the waveform (%s)' % res['role'],
+                  case=res['line'][:3000])
         if res.get('needs_total') and res['model'] is not None and res['model'].get('wf'):
             impl = res['impl']
             judge(B, g, 'judge-total', [vals_sx(flat(impl['samples'], impl['chans']))],
